@@ -220,7 +220,21 @@ class EvalMixin(object):
             if isinstance(vals, Outcome):
                 out.append((s, vals))
             else:
-                out.append((s, ("call", "fstring", tuple(vals), ())))
+                # literal pieces and formatted values, in order
+                it = iter(vals)
+                pieces = []
+                for v in node.values:
+                    if isinstance(v, ast.FormattedValue):
+                        pieces.append(next(it))
+                    elif isinstance(v, ast.Constant):
+                        pieces.append(const(v.value))
+                if all(is_const(x) for x in pieces):
+                    try:
+                        out.append((s, const("".join(str(x[1]) for x in pieces))))
+                        continue
+                    except Exception:
+                        pass
+                out.append((s, ("call", "fstring", tuple(pieces), ())))
         return out
 
     def ex_Tuple(self, node, state, frame):
@@ -501,6 +515,8 @@ class EvalMixin(object):
             return None if d is None else (not d)
         if k == "truth":
             return self.decide(t[1], state)
+        if k in ("dictlit", "kwdict", "tuple") and isinstance(t[1], tuple):
+            return len(t[1]) > 0
         if k == "and":
             ds = [self.decide(x, state) for x in t[1]]
             if any(d is False for d in ds):
